@@ -14,4 +14,5 @@ go build -gcflags='all=-N -l' -tags verif -o "$HERE/bin/vcheck_nooptl" ./cmd/vch
 # thorough-only flavours: warm if the toolchains are usable, never fail setup on them
 go build -asan -tags verif -o "$HERE/bin/vcheck_asan" ./cmd/vcheck || echo "note: asan flavour not built"
 PATH=/opt/veriftools/go1.26.8/bin:$PATH go build -tags verif -o "$HERE/bin/vcheck_go126" ./cmd/vcheck || echo "note: go1.26.8 flavour not built"
+GOARCH=386 go build -tags verif -o "$HERE/bin/vcheck_386" ./cmd/vcheck || echo "note: 386 flavour not built"
 exit $rc
